@@ -12,7 +12,7 @@ ANCHORS = ["pyoma2.functions.fdd:SD_PreGER", "pyoma2.functions.fdd:SD_est", "pyo
 REQUIRED_MONITORS = ["one-recording@SD_PreGER", "one-recording@FDD_MS", "one-recording@EFDD_MS", "one-recording@pLSCF_MS",
                      "general-blocks@SD_PreGER", "gain-metamorphic@SD_PreGER"]
 ALL_STATES = [f"{m}|pov={p:g}" for m in ("per", "cor") for p in (0, 0.25, 0.5, 0.75)] + ["refs listed out of order", "4 setups", "3 references"]
-REQUIRED_STATES = ["records longer than 2^17 samples", "per|pov=0", "per|pov=0.25", "per|pov=0.75", "cor|pov=0.25", "refs listed out of order", "recording amplitude < 1e-4", "one setup with gain < 1e-3", "identical reference records except in a middle setup", "second recording analysed with the same settings", "estimator left at the documented default"]
+REQUIRED_STATES = ["campaign decimated before the analysis (fir)", "campaign decimated before the analysis (iir)", "records longer than 2^17 samples", "per|pov=0", "per|pov=0.25", "per|pov=0.75", "cor|pov=0.25", "refs listed out of order", "recording amplitude < 1e-4", "one setup with gain < 1e-3", "identical reference records except in a middle setup", "second recording analysed with the same settings", "estimator left at the documented default"]
 RULE = ("one coloured-noise recording (2..9 channels, >= 4 segments) cut into 2..4 setups sharing 1..3 references at arbitrary positions; "
         "merged matrix compared line by line with SD_est(all channels in [ref|rov_1|rov_2..] order, ref) at the same nxseg/pov/estimator "
         "(tolerance 1e-9*cond(G_refref), lines with cond > 1e8 not judged); independent recordings: blocks recomputed from per-setup SD_est; "
@@ -252,8 +252,18 @@ def one_classes_pass(ctx, rng, rep, nset, nref, nrov, ndof, chan_glob, reflist, 
 
     X = gen.coloured(rng, ndof, N)
     datasets = [X[cg].T.copy() for cg in chan_glob]
-    f2, E = fdd.SD_est(X[rows], X[:nref], 1 / fs, nx, method=method, pov=pov)
     ms = MultiSetup_PreGER(fs=fs, ref_ind=[list(r) for r in reflist], datasets=datasets)
+    pre = getattr(run_one_classes, "pre", None) if rep == 1 else None
+    if pre is not None and N // pre[0] >= 3 * nx:
+        # the campaign decimated before the analysis (all setups alike, as one call does it): the merged matrix is the estimate of the decimated
+        # recording - decimated as scipy.signal.decimate does it with the options given, everything else at scipy's defaults
+        from scipy import signal as _sg
+        q_, kw_ = pre
+        ms.decimate_data(q=q_, **kw_)
+        X = _sg.decimate(X, q_, axis=1, **kw_)
+        fs = fs / q_
+        ctx.state("campaign decimated before the analysis (" + (kw_.get("ftype", "iir")) + ")")
+    f2, E = fdd.SD_est(X[rows], X[:nref], 1 / fs, nx, method=method, pov=pov)
     algs = [FDD_MS(name="FDD_MS", nxseg=nx, method_SD=method, pov=pov), EFDD_MS(name="EFDD_MS", nxseg=nx, method_SD=method, pov=pov),
             pLSCF_MS(name="pLSCF_MS", ordmax=2, nxseg=nx, method_SD=method, pov=pov)]
     ms.add_algorithms(*algs)
@@ -281,6 +291,7 @@ def run_case(ctx, case):
     if case["cls"] == "plumbing":
         return plumbing.run_case(ctx, case, gen.rng_of(case), PLUMB_FIELDS)
     rng = gen.rng_of(case)
+    run_one_classes.pre = [None, (2, dict(ftype="fir")), (3, dict()), (2, dict(ftype="fir", n=12))][case["k"] % 4] if case["cls"] == "one_recording_classes" else None
     if case["cls"] == "one_recording_fn" and case["k"] % 50 == 7:
         return run_one_fn(ctx, rng, long_record=True)
     {"one_recording_fn": run_one_fn, "general_fn": run_general, "one_recording_classes": run_one_classes}[case["cls"]](ctx, rng)
